@@ -12,7 +12,7 @@ C07 — specification side, written from the W3C texts (not from the code):
 
 Shared with the model (imported, not re-defined): the data types `Atom`/`Item`/`Mode`/`Op`/`Err`, the
 exact-rational reading of IEEE doubles `D` with `toD64`/`toD32` (IEEE-754 roundTiesToEven), and the
-*lexical fragment* classifier `lexNum`/`hexDecode` (the XSD lexical mappings themselves are C10's
+*lexical fragment* classifiers `lexNum`/`hexDecode`/`notTemporalLexical` (the XSD lexical mappings themselves are C10's
 subject; outside the fragment the spec answers "not applicable").  The orders, the promotion rules,
 the conversion rules and the comparability table below are independent of the model.
 -/
@@ -131,10 +131,6 @@ def castBool (s : Str) : Except Err Bool :=
   let v := strip s
   if v = sTrue || v = [49] then .ok true else if v = sFalse || v = [48] then .ok false
   else .error .FORG0001
-
-/-- strings of the fragment that are certainly not date/time/duration lexicals -/
-def notTemporalLexical (s : Str) : Bool :=
-  !((strip s).any (fun c => c = 80 || c = 58 || c = 84)) && ((strip s).filter (· = 45)).length < 2
 
 /-- XPath 3.1 §3.7.2 rule (b)/(c): the untypedAtomic value `s` is cast to a type that depends on
 the dynamic type of the other operand `o` -/
